@@ -16,7 +16,6 @@ Alphabet ==
   \cup {B("PRE", n, FALSE) : n \in Btfs}
 
 NoOut == [ev |-> <<>>, label |-> "Unknown", seq |-> 0, stream |-> 0, outcome |-> "ok"]
-NoB == B("OTHER", 0, FALSE)
 
 Init == /\ slots = [i \in Slots |-> InitSlot(i)]
         /\ tok = 2
